@@ -60,6 +60,8 @@ impl Record {
     }
 
     pub fn find_field(&self, symbol_map: &SymbolMap, name: &EcoString) -> Option<RecordFieldId> {
+        #[cfg(feature = "verif")]
+        crate::verif::walk_step();
         if let Some(field_id) = self.name_to_record_field.get(name) {
             return Some(*field_id);
         }
@@ -79,6 +81,8 @@ impl Record {
     }
 
     pub fn is_subclass_of(&self, symbol_map: &SymbolMap, other_id: RecordId) -> bool {
+        #[cfg(feature = "verif")]
+        crate::verif::walk_step();
         if self.parent_list.contains(&other_id) {
             return true;
         }
